@@ -263,9 +263,9 @@ def run_units(kunits, repo, workdir, tier, prop):
         out = {}
         if jobs:
             name, u, h = jobs[0]
-            out[(name, h["name"])] = run_harness(h, crate_dir, h.get("timeout", 1200))
+            out[(name, h["name"])] = run_harness(h, crate_dir, h.get("timeout", 600))
         with cf.ThreadPoolExecutor(max_workers=6) as pool:
-            futs = {pool.submit(run_harness, h, crate_dir, h.get("timeout", 1200)): (name, h["name"])
+            futs = {pool.submit(run_harness, h, crate_dir, h.get("timeout", 600)): (name, h["name"])
                     for name, u, h in jobs[1:]}
             for f in futs:
                 out[futs[f]] = f.result()
